@@ -37,8 +37,8 @@ def accepts(op, dtype):
     k = np.dtype(dtype).kind
     if op in ("size", "cumcount"):
         return True
-    if op in ("sum", "cumsum", "rolling_sum", "rolling_mean"):
-        return k != "M"
+    if op in ("sum", "cumsum", "rolling_sum"):
+        return k != "M"  # a sum of timestamps is meaningless (their mean is not)
     if op in ("var", "std"):
         return k in "fiu"
     if op == "median":
